@@ -8,7 +8,7 @@ pub fn prop() -> Prop {
     Prop {
         id: "C11",
         level: "model_checking",
-        rule: "all sequences S of <=5 (thorough <=7) values over a 6-value universe (three records with per-record regex patterns incl. an invalid one, a record without the selected members, a scalar, an array with a nested cell longer than 64 bytes; two records share a pattern and a split element but differ in what a macro reads besides `.`) — i.e. every concatenation A.B with |A|+|B| <= 5 (thorough 7), every permutation and every duplication — x 21 pipelines made of --set, --split-by, --filter, --select (regex functions with cache sizes 0,1,2; variables; macros; previously selected names; ^ after split; --only-objects-and-arrays) x 5 output styles (one-line, consise, pretty, text, csv) plus text with --headers; and sequences of 64, 257 and 1031 values; sequences of <=4 values mixing small records with rows of 1 KiB, 9 KiB and 20 KiB; non-trivial = S holds two values with different rows; distinct by construction",
+        rule: "all sequences S of <=5 (thorough <=7) values over a 6-value universe (three records with per-record regex patterns incl. an invalid one, a record without the selected members, a scalar, an array with a nested cell longer than 64 bytes; two records share a pattern and a split element but differ in what a macro reads besides `.`) — i.e. every concatenation A.B with |A|+|B| <= 5 (thorough 7), every permutation and every duplication — x 25 pipelines made of --set, --split-by, --filter, --select (regex functions with cache sizes 0,1,2; variables; macros; previously selected names; ^ after split; --only-objects-and-arrays) x 5 output styles (one-line, consise, pretty, text, csv) plus text with --headers; and sequences of 64, 257 and 1031 values; sequences of <=4 values mixing small records with rows of 1 KiB, 9 KiB and 20 KiB; non-trivial = S holds two values with different rows; distinct by construction",
         explanation: "metamorphic: out(S) must be the header (out of the empty input) followed by the bodies of out([s]) for each s in S in order; this single relation over all S implies out(A.B)=out(A).out(B), permutation and duplication",
         assumptions: COMMON_ASSUMPTIONS.to_vec(),
         guards: vec!["row-beyond-every-buffer", "hundreds-of-records", "two-patterns-through-a-one-entry-cache", "header-printed-once", "split-produced-rows", "value-dropped-by-filter", "repeated-value"],
@@ -63,6 +63,11 @@ fn pipelines() -> Vec<Pl> {
         Pl { name: "macro-reads-parent-after-split", args: vec!["--split-by=.l", "--set=@tag=(+ . ^.n)", "--select=@tag=t", "--select=.=e"], selections: true, cache1: false },
         Pl { name: "macro-reads-parent-in-pipe", args: vec!["--set=@full=(concat ^.s \"-\" .)", "--select=(| .p @full)=name"], selections: true, cache1: false },
         Pl { name: "macro-reads-variable", args: vec!["--set=@addq=(+ . :q)", "--select=(set \"q\" .n (| 10 @addq))=x", "--filter=(!= (set \"q\" .n (| 10 @addq)) 12)"], selections: true, cache1: false },
+        // scopes opened by set/define whose body gives nothing, next to a --set binding of the same name read by every record
+        Pl { name: "set-scope-with-empty-body-over-preset", args: vec!["--set=k=\"n\"", "--select=(get . :k)=w", "--select=(set \"k\" \"s\" .zz)=v", "--select=(set \"k\" \"p\" (get . :k))=u"], selections: true, cache1: false },
+        Pl { name: "define-scope-with-empty-body-over-preset", args: vec!["--set=@m=.n", "--select=@m=w", "--select=(define \"m\" .s .zz)=v", "--select=(define \"m\" .p @m)=u"], selections: true, cache1: false },
+        Pl { name: "set-scope-with-empty-body-no-preset", args: vec!["--select=(default :k \"unbound\")=w", "--select=(set \"k\" .n .zz)=v", "--select=(default (@ \"m\") \"unbound\")=x", "--select=(define \"m\" .n .zz)=y"], selections: true, cache1: false },
+        Pl { name: "set-scope-in-filter-and-split", args: vec!["--set=k=\"l\"", "--set=q=1", "--split-by=(default (set \"k\" \"zz\" .nothing) (get . :k))", "--filter=(default (set \"q\" 2 ^.zz) (>= . :q))", "--select=(+ . :q)=e"], selections: true, cache1: false },
     ];
     for (i, cs) in ["0", "1", "2"].iter().enumerate() {
         let c: &'static str = Box::leak(format!("--regular-expression-cache-size={cs}").into_boxed_str());
@@ -261,5 +266,5 @@ fn run(ctx: &mut Ctx) {
             }
         }
     }
-    ctx.level_done(&format!("all-sequences-of-<={maxlen}-values-x-21-pipelines-x-6-styles"));
+    ctx.level_done(&format!("all-sequences-of-<={maxlen}-values-x-25-pipelines-x-6-styles"));
 }
